@@ -65,7 +65,60 @@ type build struct {
 	head    string
 	dirty   string
 	buildS  float64
-	e5      bool
+	// E5: the worker is a go1.26.8 test binary; the protocol's arguments travel in VSIM_ARGS
+	testBin  string
+	raceMode bool
+	phase    string
+}
+
+// command builds the invocation of this build's worker for the given protocol arguments.
+func (b *build) command(args ...string) *exec.Cmd {
+	if b.testBin == "" {
+		return b.plainCommand(args...)
+	}
+	cmd := exec.Command(b.testBin, "-test.run", "^TestWorker$", "-test.timeout", "0")
+	cmd.Env = append(os.Environ(), "VSIM_ARGS="+strings.Join(args, "\x1f"))
+	if b.raceMode {
+		cmd.Env = append(cmd.Env, "VSIM_E5_MODE=race", "GORACE=halt_on_error=1 exitcode=66")
+	}
+	return cmd
+}
+
+func (b *build) plainCommand(args ...string) *exec.Cmd {
+	cmd := exec.Command(b.worker, args...)
+	cmd.Env = os.Environ()
+	return cmd
+}
+
+// searchEnv is the environment of the parallel search workers.
+func (b *build) searchEnv() []string {
+	if b.raceMode {
+		return []string{"GOMAXPROCS=4", "GOTRACEBACK=single"} // truly parallel readers
+	}
+	return []string{"GOMAXPROCS=1", "GOTRACEBACK=single"}
+}
+
+// buildE5 compiles the synctest worker (and its -race variant) with go1.26.8.
+func (b *build) buildE5() (*build, *build) {
+	start := time.Now()
+	ser := *b
+	ser.testBin = filepath.Join(b.dir, "worker5")
+	ser.phase = "serialized"
+	env := goEnv()
+	if out, err := run(b.harness, env, "go1.26.8", "test", "-c", "-o", ser.testBin, "./conc"); err != nil {
+		infra("E5 build failed: %v\n%s", err, out)
+	}
+	rc := *b
+	rc.testBin = filepath.Join(b.dir, "worker5race")
+	rc.raceMode = true
+	rc.phase = "free-running (-race)"
+	renv := append(os.Environ(), "GOFLAGS=-mod=mod", "GOPROXY=off", "GOSUMDB=off", "GOTOOLCHAIN=local", "CGO_ENABLED=1")
+	if out, err := run(b.harness, renv, "go1.26.8", "test", "-race", "-c", "-o", rc.testBin, "./conc"); err != nil {
+		infra("E5 race build failed: %v\n%s", err, out)
+	}
+	b.buildS += time.Since(start).Seconds()
+	ser.buildS, rc.buildS = b.buildS, b.buildS
+	return &ser, &rc
 }
 
 func gitInfo() (string, string) {
